@@ -214,7 +214,10 @@ impl GenerationPass for AvailableValuePass {
                         node.gen_memory_value()
                     {
                         if let Some(curr_stack) = node.reg_values_in().stack_offset() {
-                            map.insert(MemoryLocation::StackOffset(curr_stack.wrapping_add(offset)), value);
+                            map.insert(
+                                MemoryLocation::StackOffset(curr_stack.wrapping_add(offset)),
+                                value,
+                            );
                         }
                     } else if let Some((memory, value)) = node.gen_memory_value() {
                         map.insert(memory, value);
@@ -439,7 +442,10 @@ fn rule_known_values_to_stack(
                     AvailableValue::OriginalRegisterWithScalar(reg2, off3) => {
                         memory_out.insert(
                             pos,
-                            AvailableValue::OriginalRegisterWithScalar(*reg2, off3.wrapping_add(off)),
+                            AvailableValue::OriginalRegisterWithScalar(
+                                *reg2,
+                                off3.wrapping_add(off),
+                            ),
                         );
                     }
                     _ => {}
